@@ -16,5 +16,5 @@ CONSTANTS
  RunToBlock = FALSE
  Mut = "none"
 SPECIFICATION Spec
-INVARIANTS InvPausedQuiet InvFlushFresh InvPauseSurvives InvTerminatedGone InvReset InvC11 InvNeverPropagated InvLoopShape InvStatusMachine
+INVARIANTS InvPausedQuiet InvFlushFresh InvPauseSurvives InvTerminatedGone InvReset InvC11 InvNeverPropagated InvLoopShape InvStatusMachine InvRecycle
 CHECK_DEADLOCK FALSE
